@@ -778,6 +778,33 @@ def f(a, m):
     return K().run(a, m)
 ''', ['f(1, 2)'])
 
+case('default evaluated once (a call) is not re-evaluated per call', '''
+_n = [0]
+def _tick():
+    _n[0] += 1
+    return _n[0]
+def _pick(given=None, fallback=_tick()):
+    return given or fallback
+def f(v):
+    return _pick(v), _pick(None), _pick()
+''', ['f(0)', 'f(7)', 'f(None)'], expect_inlined=False)
+
+case('mutable default is one object for all calls', '''
+def _collect(x, acc=[]):
+    acc.append(x)
+    return list(acc)
+def f(v):
+    return _collect(v), _collect(v + 1)
+''', ['f(1)', 'f(5)'], expect_inlined=False)
+
+case('constant / named / tuple defaults are still materialised', '''
+_MISSING = object()
+def _h(a, b=-1, c=(1, 'x'), d=_MISSING, e=None):
+    return (a, b, c, d is _MISSING, e)
+def f(v):
+    return _h(v), _h(v, 2)
+''', ['f(1)'])
+
 
 def run_case(name, src, calls, expect_inlined):
     tree = ast.parse(src)
